@@ -111,11 +111,24 @@ register(Contract(
 ))
 
 register(Contract(
-    key=MAIN + "__scan_files_if_no_errors", properties=P + ["C15", "C19"],
-    requires=[f"scheme_ok({SCHEME})", "self.__plugins.number_of_scan_failures >= 0"],
-    ensures=["result == doc_category(did_error_scanning_files, len(files_to_scan), use_standard_in, "
-             "ghost_failed, ghost_fixed, self.__plugins.number_of_scan_failures)"],
+    key=MAIN + "__scan_files_if_no_errors", properties=P + ["C15", "C19", "C10"],
+    requires=[f"scheme_ok({SCHEME})", "self.__plugins.number_of_scan_failures >= 0",
+              # C19 hands over a duplicate-free list
+              "forall(lambda a, b: implies(a < b, files_to_scan[a] != files_to_scan[b]), 0, len(files_to_scan))",
+              "is_empty(g_succ) and is_empty(g_fix) and is_empty(g_announced) and is_empty(g_fixflag)", "not g_stdin_ok",
+              "g_nfail == 0 and g_nfix == 0", "implies(use_standard_in, args.primary_subparser != 'fix')", "not g_called"],
+    ghost={"g_succ": "List[bool]", "g_fix": "List[bool]", "g_fixflag": "Dict[str, bool]", "g_announced": "Set[str]", "g_stdin_ok": "bool",
+           "g_nfail": "int", "g_nfix": "int", "g_called": "bool"},
+    types={"args": "Namespace"},
+    calls={"fsh.process_files_to_scan": ("pymarkdown/file_scan_helper.py::FileScanHelper.process_files_to_scan", ["g_called = True"])},
+    ensures=[
+        # the category is the documented function of: discovery error, number of files, per-file failures (g_nfail),
+        # per-file fixes (g_nfix), reported rule failures
+        "result == doc_category(did_error_scanning_files, len(files_to_scan), use_standard_in, "
+        "(g_nfail > 0) if not use_standard_in else (not g_stdin_ok), g_nfix > 0, self.__plugins.number_of_scan_failures)",
+        # C19: a discovery error means nothing is scanned
+        "implies(did_error_scanning_files, not g_called)",
+    ],
     raises=[Raises("SystemExit", code=SYSERR), Raises("Exception")],
-    modifies=["__tokenizer", "number_of_scan_failures", "_FileScanHelper__continue_on_error"],
-    ghost={"ghost_failed": "bool", "ghost_fixed": "bool"},
+    modifies=["*", "number_of_scan_failures"],
 ))
